@@ -28,7 +28,8 @@ SPECIAL_STRS = ["02134", "007", "0", "18", "-3", "+5", "1e5", "1E3", "inf", "-in
                 ".5", "5.", "1.0", "3.14", "9007199254740993", "True", "False", "None", "", " ", "it's", 'say "hi"', "C:\\temp",
                 "C:\\new", "a\\\\b", "\\x41", "\\", "a\\", "\\'", "tab\there", "//", "/* x */", "a//b", "é", "日本", "١٢", "٣", "ß",
                 "A", "a b", "'+str(1)+'", "{0}", "%s", "x" * 200, "\\u0041", "\\N{BULLET}", "0.1", "1e-5", "00", "-0", "0e0", "1.",
-                "١", "1 ", "\t1", "a\rb", "\r", "x\x0cy", "\x0b", "\x85", "\u2028", "\x1c1", "1\r", "\r\r"]
+                "١", "1 ", "\t1", "a\rb", "\r", "x\x0cy", "\x0b", "\x85", "\u2028", "\x1c1", "1\r", "\r\r", "\ufb01", "x\u00b2", "\u2126", "\uff11\uff12", "\uff02", "\uff07x", "\u212b", "e\u0301", "\u00e9",
+                "\u33a1", "\u2460", "\uff76", "\u1e9b\u0323"]
 SPECIAL_INTS = ["0", "1", "7", "18", "007", "0000", "9007199254740992", "9007199254740993", "9007199254740991", "18446744073709551616",
                 "123456789012345678901234567890", "1" + "0" * 39, "9" * 40, "2147483648", "4294967296", "100000000000000000000001"]
 SPECIAL_FLOATS = ["0.0", "1.5", "0.1", "3.14", "18.0", "1.0", "0.30000000000000004", "9007199254740993.0", "2.50", "007.500",
